@@ -94,17 +94,44 @@ func (c *Ctx) Violate(oracle, key, desc, input string) {
 	c.rep.Violations = append(c.rep.Violations, Violation{oracle, key, desc, input})
 }
 
+// Prop is one property's harness: several independently written generator
+// runs (each may emit correspondence lines and evaluate oracles) and the
+// replay functions of its oracles.
 type Prop struct {
-	Rule   string
-	Run    func(c *Ctx)
-	Replay func(oracle, input string) (ok bool, detail string)
-	Canon  func(line string) string // optional canonicaliser for model output lines
+	Rules   []string
+	Runs    []func(c *Ctx)
+	Replays map[string]func(input string) (ok bool, detail string)
+	Canon   func(line string) string // optional canonicaliser for model output lines
 }
 
 var props = map[string]*Prop{}
 
+func prop(id string) *Prop {
+	p, ok := props[id]
+	if !ok {
+		p = &Prop{Replays: map[string]func(string) (bool, string){}}
+		props[id] = p
+	}
+	return p
+}
+
+// addRun registers a generator run for a property; rule describes how its
+// cases are generated and what makes one non-trivial/distinct.
+func addRun(id, rule string, run func(c *Ctx)) {
+	p := prop(id)
+	p.Rules = append(p.Rules, rule)
+	p.Runs = append(p.Runs, run)
+}
+
+// addReplay registers the replay function of a named oracle.
+func addReplay(id, oracle string, f func(input string) (bool, string)) {
+	prop(id).Replays[oracle] = f
+}
+
+func setCanon(id string, f func(string) string) { prop(id).Canon = f }
+
 func main() {
-	prop := flag.String("prop", "", "property id")
+	propID := flag.String("prop", "", "property id")
 	seed := flag.Uint64("seed", 1, "seed")
 	tier := flag.String("tier", "quick", "quick|thorough")
 	out := flag.String("out", "", "output directory")
@@ -128,14 +155,14 @@ func main() {
 		return
 	}
 
-	p, ok := props[*prop]
+	p, ok := props[*propID]
 	if !ok {
 		var ids []string
 		for k := range props {
 			ids = append(ids, k)
 		}
 		sort.Strings(ids)
-		fmt.Fprintf(os.Stderr, "unknown property %q (have %v)\n", *prop, ids)
+		fmt.Fprintf(os.Stderr, "unknown property %q (have %v)\n", *propID, ids)
 		os.Exit(2)
 	}
 
@@ -153,11 +180,12 @@ func main() {
 			fmt.Fprintln(os.Stderr, err)
 			os.Exit(2)
 		}
-		if p.Replay == nil || rf.Oracle == "" {
-			fmt.Println("replay: nothing to run against the implementation for this record")
+		rp := p.Replays[rf.Oracle]
+		if rp == nil {
+			fmt.Println("replay: nothing to run against the implementation for this record (it names a theorem, translation or correspondence line)")
 			os.Exit(3)
 		}
-		ok, detail := p.Replay(rf.Oracle, rf.Input)
+		ok, detail := rp(rf.Input)
 		fmt.Println(detail)
 		if ok {
 			fmt.Println("replay: property holds on this input")
@@ -178,12 +206,14 @@ func main() {
 		Thorough: *tier == "thorough",
 		ops:      bufio.NewWriterSize(opsF, 1<<20),
 		impl:     bufio.NewWriterSize(implF, 1<<20),
-		rep:      &Report{Property: *prop, Seed: *seed, Tier: *tier, Rule: p.Rule, Stats: map[string]int{}, Samples: []string{}, Violations: []Violation{}},
+		rep:      &Report{Property: *propID, Seed: *seed, Tier: *tier, Rule: strings.Join(p.Rules, " || "), Stats: map[string]int{}, Samples: []string{}, Violations: []Violation{}},
 		distinct: map[string]struct{}{},
 		viol:     map[string]int{},
 	}
 	t0 := time.Now()
-	p.Run(c)
+	for _, run := range p.Runs {
+		run(c)
+	}
 	c.ops.Flush()
 	c.impl.Flush()
 	opsF.Close()
